@@ -141,6 +141,8 @@ func (v *resView) project(prop string) string {
 		return v.issueKeys(true, "code,dtype,params,msg", nil)
 	case "C12":
 		return v.log.String() + " " + v.issueKeys(false, "code,path", nil)
+	case "C17":
+		return v.issueKeys(true, "path,code,dtype,params,msg", nil) + " " + v.dest.String() + " " + v.log.String()
 	case "C13":
 		return v.issueKeys(false, "path,code,dtype,msg", nil) + " " + v.dest.String()
 	case "C19":
@@ -149,7 +151,7 @@ func (v *resView) project(prop string) string {
 	return ""
 }
 
-var engineProps = []string{"C01", "C02", "C03", "C04", "C05", "C09", "C10", "C11", "C12"}
+var engineProps = []string{"C01", "C02", "C03", "C04", "C05", "C09", "C10", "C11", "C12", "C17"}
 
 func nodeStats(n *eng.Node, depth int, h map[string]int, maxDepth *int) (nodes int, catches int, posts int) {
 	if depth > *maxDepth {
@@ -184,6 +186,9 @@ func streamEngine(seed uint64, n int, driver, corpus, dump, variant string) (*Su
 		switch variant {
 		case "fmt":
 			g.FmtModes = true
+		case "nearsuccess":
+			g.NearSuccess = true
+			g.Populated = true
 		case "share":
 			g.Share = true
 			g.CatchBias = i%2 == 0
